@@ -86,6 +86,11 @@ def gen_spec(seed: int, idx: int, tier: str) -> tuple[dict, list[dict], random.R
     else:
         kinds = [k for k in FAULT_KINDS if rng.random() < 0.3]
     spec["faults"] = {"kinds": kinds, "p_proc": rng.choice([0.3, 0.6, 1.0]), "p_second": 0.25, "horizon": rng.choice([15, 30, 48])}
+    # persistent conditions (own stream, so the scenarios generated before this knob existed are unchanged)
+    prng = rng_for(PROP, seed, f"persist-{idx}")
+    if prng.random() < 0.12:
+        np_ = len(spec["procs"])
+        spec["persist"] = {"cls": prng.choice(sorted(procworld.PERSIST)), "proc": None if prng.random() < 0.4 else prng.randrange(np_), "from": prng.choice([0, 0, 3, 8]) if prng.random() < 0.3 else prng.randrange(0, 70)}
     return spec, inputs, rng
 
 
@@ -366,6 +371,10 @@ def shrink_candidates(spec: dict, inputs: list[dict]):
             s2 = copy.deepcopy(spec)
             s2[key] = val
             yield s2, inputs
+    if spec.get("persist"):
+        s2 = copy.deepcopy(spec)
+        del s2["persist"]
+        yield s2, inputs
     for k in list(spec["faults"]["kinds"]):
         s2 = copy.deepcopy(spec)
         s2["faults"]["kinds"] = [x for x in spec["faults"]["kinds"] if x != k]
